@@ -66,7 +66,7 @@ impl DataItem for DateItem {
                     0 => (),
                     n => {
                         let years_diff = date.year() + n as i32;
-                        date     = NaiveDate::from_ymd(years_diff as i32, date.month() as u32, date.day());
+                        date     = NaiveDate::from_ymd_opt(years_diff as i32, date.month() as u32, date.day())?;
                         duration = Duration::seconds(duration.num_seconds() - (YEAR * n))
                     }
                 };
@@ -74,13 +74,14 @@ impl DataItem for DateItem {
                 match self.get_month_from_duration(duration) {
                     0 => (),
                     n => {
-                        let years_diff = (date.month() + n as u32) / 12;
-                        let month = (date.month() + n as u32) % 12;
-                        date     = NaiveDate::from_ymd(date.year() + years_diff as i32, month as u32, date.day());
+                        /* Months are counted from zero, otherwise december is month 0 of the next year */
+                        let years_diff = (date.month0() + n as u32) / 12;
+                        let month = (date.month0() + n as u32) % 12 + 1;
+                        date     = NaiveDate::from_ymd_opt(date.year() + years_diff as i32, month as u32, date.day())?;
                         duration = Duration::seconds(duration.num_seconds() - (MONTH * n))
                     }
                 };
-                Some(Rc::new(DateItem(date + duration, self.1.clone())))
+                Some(Rc::new(DateItem(date.checked_add_signed(duration)?, self.1.clone())))
             },
 
             OperationType::Sub => {
@@ -88,7 +89,7 @@ impl DataItem for DateItem {
                     0 => (),
                     n => {
                         let years_diff = date.year() - n as i32;
-                        date     = NaiveDate::from_ymd(years_diff as i32, date.month() as u32, date.day());
+                        date     = NaiveDate::from_ymd_opt(years_diff as i32, date.month() as u32, date.day())?;
                         duration = Duration::seconds(duration.num_seconds() - (YEAR * n))
                     }
                 };
@@ -98,15 +99,15 @@ impl DataItem for DateItem {
                     n => {
                         let years = date.year() - (n as i32 / 12);
                         let mut months = date.month() as i32 - (n as i32 % 12);
-                        if months < 0 {
+                        if months <= 0 {
                             months += 12;
                         }
 
-                        date = NaiveDate::from_ymd(years as i32, months as u32, date.day());
+                        date = NaiveDate::from_ymd_opt(years as i32, months as u32, date.day())?;
                         duration = Duration::seconds(duration.num_seconds() - (MONTH * n))
                     }
                 };
-                Some(Rc::new(DateItem(date - duration, self.1.clone())))
+                Some(Rc::new(DateItem(date.checked_sub_signed(duration)?, self.1.clone())))
             },
             _ => None
         }
